@@ -1,1 +1,473 @@
-// shared generators
+//! Shared structure-aware frame generators and classifiers (used by C01, C07, C08).
+use crate::oracle::bits::Bits;
+use crate::oracle::{crc, frames, gillham};
+use crate::util::Rng;
+use rs1090::decode::adsb::ME;
+use rs1090::decode::{Message, DF};
+
+/// widths of the fields that follow the 5-bit type code in a 56-bit ME
+pub fn me_layout(tc: u8) -> &'static [usize] {
+    match tc {
+        1..=4 => &[3, 6, 6, 6, 6, 6, 6, 6, 6],
+        5..=8 => &[7, 1, 7, 1, 1, 17, 17],
+        9..=18 | 20..=22 => &[2, 1, 12, 1, 1, 17, 17],
+        19 => &[3, 1, 1, 3, 1, 10, 1, 10, 1, 1, 9, 2, 1, 7],
+        28 => &[3, 3, 13, 32],
+        29 => &[2, 1, 1, 11, 9, 1, 9, 4, 1, 2, 1, 1, 1, 1, 1, 1, 1, 1, 2],
+        31 => &[3, 2, 1, 1, 2, 1, 1, 2, 6, 2, 1, 1, 1, 1, 2, 8, 3, 1, 4, 2, 2, 1, 1, 2],
+        _ => &[3, 16, 16, 16],
+    }
+}
+
+/// fill `len` bits from 1-based bit `first` field by field with boundary-biased values
+pub fn fill_fields(b: &mut Bits, first: usize, layout: &[usize], rng: &mut Rng) {
+    let mut pos = first;
+    for w in layout {
+        b.set(pos, *w, rng.biased(*w as u32));
+        pos += *w;
+    }
+}
+
+/// a 56-bit block with a global bias pattern
+pub fn block56(rng: &mut Rng) -> [u8; 7] {
+    let mut o = [0u8; 7];
+    match rng.below(8) {
+        0 => {}
+        1 => o = [0xff; 7],
+        2 => {
+            for _ in 0..rng.range(1, 3) {
+                let p = rng.below(56) as usize;
+                o[p / 8] |= 1 << (7 - p % 8);
+            }
+        }
+        3 => {
+            o = [0xff; 7];
+            for _ in 0..rng.range(1, 3) {
+                let p = rng.below(56) as usize;
+                o[p / 8] &= !(1 << (7 - p % 8));
+            }
+        }
+        _ => o.copy_from_slice(&rng.bytes(7)),
+    }
+    o
+}
+
+/// ME for a given type code: field-aligned biased values (50 %), global patterns otherwise
+pub fn adsb_me(rng: &mut Rng, tc: u8) -> [u8; 7] {
+    let mut b = Bits::from(&block56(rng));
+    if rng.chance(0.6) {
+        fill_fields(&mut b, 6, me_layout(tc), rng);
+    }
+    b.set(1, 5, tc as u64);
+    if tc == 31 && rng.chance(0.7) {
+        // reserved bits that the operational-status reader asserts to be zero
+        b.set(6, 3, rng.below(2)); // airborne / surface
+        b.set(9, 2, 0); // capability class reserved
+        if b.get(6, 3) == 0 {
+            b.set(13, 2, 0);
+        }
+        b.set(25, 2, 0); // operational mode reserved
+        b.set(41, 3, *rng.pick(&[0u64, 1, 2, 2, 2, 3, 7]));
+    }
+    let mut o = [0u8; 7];
+    o.copy_from_slice(&b.bytes);
+    o
+}
+
+fn callsign_codes(rng: &mut Rng, valid: bool) -> [u8; 8] {
+    let mut c = [32u8; 8];
+    let n = rng.range(1, 8) as usize;
+    for (i, x) in c.iter_mut().enumerate() {
+        if !valid {
+            *x = rng.below(64) as u8;
+        } else if i < n {
+            *x = if rng.chance(0.7) { rng.range(1, 26) as u8 } else { rng.range(48, 57) as u8 };
+        }
+    }
+    c
+}
+
+pub const REGISTERS: [&str; 14] = ["bds05", "bds10", "bds17", "bds18", "bds19", "bds20", "bds21", "bds30", "bds40", "bds44", "bds45", "bds50", "bds60", "bds65"];
+
+/// Comm-B payload built to satisfy one register hypothesis (valid-biased), fields boundary-biased
+pub fn commb_for(rng: &mut Rng, reg: &str, ac13: u16) -> [u8; 7] {
+    let mut b = Bits::zero(7);
+    let strict = rng.chance(0.85);
+    match reg {
+        "bds05" => {
+            let tc = *rng.pick(&[9u8, 10, 11, 12, 13, 14, 15, 16, 17, 18, 20, 21, 22]);
+            fill_fields(&mut b, 6, me_layout(tc), rng);
+            b.set(1, 5, tc as u64);
+            if strict {
+                b.set(9, 12, gillham::field13_to_12(ac13 & !0x40) as u64);
+            }
+        }
+        "bds10" => {
+            fill_fields(&mut b, 1, &[8, 1, 5, 1, 1, 7, 1, 1, 3, 4, 1, 1, 1, 1, 1, 1, 2, 16], rng);
+            b.set(1, 8, 0x10);
+            if strict {
+                b.set(10, 5, 0);
+            }
+        }
+        "bds17" => {
+            fill_fields(&mut b, 1, &[1; 24], rng);
+            if strict {
+                b.set(7, 1, 1);
+            }
+            b.set(25, 5, rng.biased(5));
+            if !strict {
+                b.set(30, 27, rng.biased(27));
+            }
+        }
+        "bds18" | "bds19" => {
+            // mostly-zero capability bitmaps with the bits the readers insist on
+            for _ in 0..rng.below(6) {
+                b.set(1 + rng.below(56) as usize, 1, 1);
+            }
+            if strict {
+                if reg == "bds18" {
+                    // bds20, bds19, bds18, bds17 must be set: fields 25, 32, 33, 34 of the struct order
+                    for p in [25usize, 32, 33, 34] {
+                        b.set(p, 1, 1);
+                    }
+                    for p in (1..=56).filter(|p| ![9usize, 24, 25, 26, 27, 28, 29, 30, 31, 32, 33, 34, 41, 42, 46, 47, 48, 49, 50, 51, 52].contains(p)) {
+                        b.set(p, 1, 0);
+                    }
+                } else {
+                    for p in (1..=56).filter(|p| ![12usize, 15, 16, 17, 18, 30, 31, 32, 33, 44, 45, 49].contains(p)) {
+                        b.set(p, 1, 0);
+                    }
+                }
+            }
+        }
+        "bds20" => {
+            b.set(1, 8, 0x20);
+            for (i, c) in callsign_codes(rng, strict).iter().enumerate() {
+                b.set(9 + 6 * i, 6, *c as u64);
+            }
+        }
+        "bds21" => {
+            let st = rng.chance(0.8);
+            b.set(1, 1, st as u64);
+            if st || !strict {
+                for i in 0..7 {
+                    let c = if strict { if rng.chance(0.6) { rng.range(1, 26) } else { rng.range(48, 57) } } else { rng.below(64) as i64 };
+                    b.set(2 + 6 * i, 6, c as u64);
+                }
+            }
+            let st2 = rng.chance(0.5);
+            b.set(44, 1, st2 as u64);
+            if st2 || !strict {
+                for i in 0..2 {
+                    let c = if strict { rng.range(1, 26) } else { rng.below(64) as i64 };
+                    b.set(45 + 6 * i, 6, c as u64);
+                }
+            }
+        }
+        "bds30" => {
+            fill_fields(&mut b, 1, &[8, 1, 1, 1, 1, 1, 1, 1, 7, 1, 1, 1, 1, 1, 1, 2, 26], rng);
+            b.set(1, 8, 0x30);
+            b.set(29, 2, rng.below(4));
+        }
+        "bds40" => {
+            fill_fields(&mut b, 1, &[1, 12, 1, 12, 1, 12, 8, 1, 1, 1, 1, 2, 1, 2], rng);
+            if strict {
+                b.set(40, 8, 0).set(52, 2, 0);
+                for (s, v) in [(1usize, 2usize), (14, 15)] {
+                    if b.get(s, 1) == 0 {
+                        b.set(v, 12, 0);
+                    } else if b.get(v, 12) > 2812 {
+                        b.set(v, 12, rng.below(2813));
+                    }
+                }
+                if b.get(27, 1) == 0 {
+                    b.set(28, 12, 0);
+                }
+            }
+        }
+        "bds44" => {
+            fill_fields(&mut b, 1, &[4, 1, 9, 9, 1, 10, 1, 11, 1, 2, 1, 6], rng);
+            if strict {
+                if b.get(5, 1) == 0 {
+                    b.set(6, 18, 0);
+                } else if b.get(6, 9) > 250 {
+                    b.set(6, 9, rng.below(251));
+                }
+                // temperature within [-80, 60]
+                let neg = rng.chance(0.5);
+                b.set(24, 1, neg as u64);
+                b.set(25, 10, if neg { 1024 - rng.below(321) } else { rng.below(241) } & 0x3ff);
+                b.set(35, 12, 0); // pressure must be absent
+                if b.get(47, 1) == 0 {
+                    b.set(48, 2, 0);
+                }
+                if b.get(50, 1) == 0 {
+                    b.set(51, 6, 0);
+                }
+            }
+        }
+        "bds45" => {
+            fill_fields(&mut b, 1, &[1, 2, 1, 2, 1, 2, 1, 2, 1, 2, 1, 1, 9, 1, 11, 1, 12, 5], rng);
+            if strict {
+                for s in [1usize, 4, 7, 10, 13] {
+                    if b.get(s, 1) == 0 {
+                        b.set(s + 1, 2, 0);
+                    }
+                }
+                if b.get(16, 1) == 0 {
+                    b.set(17, 10, 0);
+                } else {
+                    let neg = rng.chance(0.5);
+                    b.set(17, 1, neg as u64);
+                    b.set(18, 9, if neg { 512 - rng.below(321) } else { rng.below(241) } & 0x1ff);
+                }
+                if b.get(27, 1) == 0 {
+                    b.set(28, 11, 0);
+                }
+                if b.get(39, 1) == 0 {
+                    b.set(40, 12, 0);
+                }
+                b.set(52, 5, 0);
+            }
+        }
+        "bds50" => {
+            fill_fields(&mut b, 1, &[1, 1, 9, 1, 1, 10, 1, 10, 1, 1, 9, 1, 10], rng);
+            if strict {
+                // plausible: roll <= 50 deg, gs <= 600, tas in [80,500], |gs - tas| <= 200, roll and rate signs agree
+                let sign = rng.below(2);
+                if b.get(1, 1) == 1 {
+                    let v = rng.below(285);
+                    b.set(2, 1, sign).set(3, 9, if sign == 1 { (512 - v) & 0x1ff } else { v });
+                } else {
+                    b.set(2, 10, 0);
+                }
+                if b.get(12, 1) == 0 {
+                    b.set(13, 11, 0);
+                }
+                let gs = rng.below(301);
+                if b.get(24, 1) == 1 {
+                    b.set(25, 10, gs);
+                } else {
+                    b.set(25, 10, 0);
+                }
+                if b.get(35, 1) == 1 {
+                    let v = rng.below(512);
+                    b.set(36, 1, sign).set(37, 9, if sign == 1 { (512 - v) & 0x1ff } else { v });
+                } else {
+                    b.set(36, 10, 0);
+                }
+                if b.get(46, 1) == 1 {
+                    let lo = (gs as i64 - 100).max(40);
+                    let hi = (gs as i64 + 100).min(250);
+                    b.set(47, 10, rng.range(lo.min(hi), hi) as u64);
+                } else {
+                    b.set(47, 10, 0);
+                }
+            }
+        }
+        "bds60" => {
+            fill_fields(&mut b, 1, &[1, 1, 10, 1, 10, 1, 10, 1, 1, 9, 1, 1, 9], rng);
+            if strict {
+                if b.get(1, 1) == 0 {
+                    b.set(2, 11, 0);
+                }
+                let ias = rng.range(150, 250) as u64;
+                if b.get(13, 1) == 1 {
+                    b.set(14, 10, ias);
+                } else {
+                    b.set(14, 10, 0);
+                }
+                if b.get(24, 1) == 1 {
+                    b.set(25, 10, rng.range(100, 125) as u64);
+                } else {
+                    b.set(25, 10, 0);
+                }
+                for s in [35usize, 46] {
+                    if b.get(s, 1) == 1 {
+                        let sign = rng.below(2);
+                        let v = rng.below(188);
+                        b.set(s + 1, 1, sign).set(s + 2, 9, if sign == 1 { (512 - v) & 0x1ff } else { v });
+                    } else {
+                        b.set(s + 1, 10, 0);
+                    }
+                }
+            }
+        }
+        "bds65" => {
+            let me = adsb_me(rng, 31);
+            b = Bits::from(&me);
+            if strict {
+                b.set(6, 3, rng.below(2));
+            }
+        }
+        _ => b = Bits::from(&block56(rng)),
+    }
+    let mut o = [0u8; 7];
+    o.copy_from_slice(&b.bytes);
+    o
+}
+
+pub fn commb_payload(rng: &mut Rng, ac13: u16) -> [u8; 7] {
+    match rng.below(10) {
+        0 => block56(rng),
+        _ => {
+            let reg = *rng.pick(&REGISTERS);
+            commb_for(rng, reg, ac13)
+        }
+    }
+}
+
+/// One structure-aware frame. DF17 is sealed (zero syndrome) so that it is accepted.
+pub fn structured(rng: &mut Rng, df: u8) -> Vec<u8> {
+    match df {
+        17 | 18 => {
+            let tc = rng.below(32) as u8;
+            let me = adsb_me(rng, tc);
+            let aa = rng.biased(24) as u32;
+            let f = frames::long_es(df, rng.below(8) as u8, aa, &me);
+            if df == 18 && rng.chance(0.5) {
+                // DF18 does not check parity: leave a random PI
+                let mut g = f.clone();
+                let n = g.len();
+                g[n - 3..].copy_from_slice(&rng.bytes(3));
+                g
+            } else {
+                f
+            }
+        }
+        0 | 4 | 5 => frames::short_ap(df, rng.biased(27) as u32 ^ if rng.chance(0.5) { rng.next() as u32 & 0x7ff_ffff } else { 0 }, rng.biased(24) as u32),
+        11 => {
+            let mut b = Bits::zero(7);
+            b.set(1, 5, 11).set(6, 3, rng.below(8)).set(9, 24, rng.biased(24)).set(33, 24, rng.biased(24));
+            b.bytes
+        }
+        16 | 20 | 21 => {
+            let h = rng.biased(27) as u32 ^ if rng.chance(0.5) { rng.next() as u32 & 0x7ff_ffff } else { 0 };
+            let mb = commb_payload(rng, (h & 0x1fff) as u16);
+            frames::long_ap(df, h, &mb, rng.biased(24) as u32)
+        }
+        d => {
+            let long = d & 0x10 != 0;
+            let mut f = rng.bytes(if long { 14 } else { 7 });
+            if rng.chance(0.3) {
+                let b = block56(rng);
+                f[..7].copy_from_slice(&b);
+            }
+            f[0] = (d << 3) | (f[0] & 7);
+            f
+        }
+    }
+}
+
+/// coverage class of an accepted message
+pub fn classify(m: &Message) -> String {
+    match &m.df {
+        DF::ShortAirAirSurveillance { .. } => "DF0".into(),
+        DF::SurveillanceAltitudeReply { .. } => "DF4".into(),
+        DF::SurveillanceIdentityReply { .. } => "DF5".into(),
+        DF::AllCallReply { .. } => "DF11".into(),
+        DF::LongAirAirSurveillance { .. } => "DF16".into(),
+        DF::ExtendedSquitterADSB(a) => format!("DF17:{}", me_class(&a.message)),
+        DF::ExtendedSquitterTisB { cf, .. } => format!("DF18:{}", me_class(&cf.me)),
+        DF::ExtendedSquitterMilitary { .. } => "DF19".into(),
+        DF::CommBAltitudeReply { bds, .. } => format!("DF20:{}", regs20(bds)),
+        DF::CommBIdentityReply { bds, .. } => format!("DF21:{}", regs21(bds)),
+        DF::CommDExtended { .. } => "DF24-31".into(),
+    }
+}
+
+pub fn me_class(me: &ME) -> String {
+    match me {
+        ME::NoPosition(_) => "TC0".into(),
+        ME::BDS08(x) => format!("TC{}", x.id),
+        ME::BDS06(x) => format!("TC{}", x.tc),
+        ME::BDS05(x) => format!("BDS05:nucp{}:{:?}", x.nuc_p, x.source),
+        ME::BDS09(x) => format!("TC19:st{}", x.subtype),
+        ME::Reserved0(_) => "TC23".into(),
+        ME::SurfaceSystemStatus(_) => "TC24".into(),
+        ME::Reserved1 { .. } => "TC25-27".into(),
+        ME::BDS61(x) => format!("TC28:{:?}", x.subtype),
+        ME::BDS62(x) => format!("TC29:st{}", x.subtype),
+        ME::AircraftOperationalCoordination(_) => "TC30".into(),
+        ME::BDS65(x) => {
+            use rs1090::decode::bds::bds65::AircraftOperationStatus as S;
+            match x {
+                S::Airborne(a) => format!("TC31:airborne:{}", version_name(&format!("{:?}", a.version))),
+                S::Surface(s) => format!("TC31:surface:{}", version_name(&format!("{:?}", s.version))),
+                S::Reserved(..) => "TC31:reserved".into(),
+            }
+        }
+    }
+}
+
+fn version_name(dbg: &str) -> &'static str {
+    if dbg.starts_with("DOC9871AppendixA") {
+        "v0"
+    } else if dbg.starts_with("DOC9871AppendixB") {
+        "v1"
+    } else if dbg.starts_with("DOC9871AppendixC") {
+        "v2"
+    } else {
+        "v3-7"
+    }
+}
+
+macro_rules! regs {
+    ($b:expr) => {{
+        let b = $b;
+        let mut v: Vec<&str> = vec![];
+        if b.is_empty { v.push("empty"); }
+        if b.bds05.is_some() { v.push("05"); }
+        if b.bds10.is_some() { v.push("10"); }
+        if b.bds17.is_some() { v.push("17"); }
+        if b.bds18.is_some() { v.push("18"); }
+        if b.bds19.is_some() { v.push("19"); }
+        if b.bds20.is_some() { v.push("20"); }
+        if b.bds21.is_some() { v.push("21"); }
+        if b.bds30.is_some() { v.push("30"); }
+        if b.bds40.is_some() { v.push("40"); }
+        if b.bds44.is_some() { v.push("44"); }
+        if b.bds45.is_some() { v.push("45"); }
+        if b.bds50.is_some() { v.push("50"); }
+        if b.bds60.is_some() { v.push("60"); }
+        if b.bds65.is_some() { v.push("65"); }
+        if v.is_empty() { "none".to_string() } else { v.join("+") }
+    }};
+}
+pub fn regs20(b: &rs1090::decode::commb::DF20DataSelector) -> String {
+    regs!(b)
+}
+pub fn regs21(b: &rs1090::decode::commb::DF21DataSelector) -> String {
+    regs!(b)
+}
+
+/// the address the frame carries: AA for DF11/17/18, syndrome for AP formats
+pub fn carried_address(frame: &[u8]) -> Option<(u8, u32)> {
+    if frame.is_empty() {
+        return None;
+    }
+    let df = frame[0] >> 3;
+    match df {
+        11 | 17 | 18 if frame.len() >= 4 => Some((df, ((frame[1] as u32) << 16) | ((frame[2] as u32) << 8) | frame[3] as u32)),
+        0 | 4 | 5 | 16 | 20 | 21 => Some((df, crc::remainder(frame))),
+        _ => None,
+    }
+}
+
+/// coverage classes of an accepted message (Comm-B: one class per register present instead of per combination)
+pub fn coverage_classes(m: &Message) -> Vec<String> {
+    let c = classify(m);
+    if let Some(rest) = c.strip_prefix("DF20:").map(|r| ("DF20", r)).or_else(|| c.strip_prefix("DF21:").map(|r| ("DF21", r))) {
+        let (df, regs) = rest;
+        let parts: Vec<&str> = regs.split('+').collect();
+        let mut v: Vec<String> = parts.iter().map(|p| format!("{df}:reg:{p}")).collect();
+        v.push(format!("{df}:{}-register(s)", if regs == "none" || regs == "empty" { 0 } else { parts.len().min(3) }));
+        v
+    } else if c.contains(":BDS05:") {
+        // DF17:BDS05:nucpN:Source -> keep source, drop nucp from the class name
+        let src = c.rsplit(':').next().unwrap_or("");
+        vec![format!("{}:BDS05:{src}", &c[..4])]
+    } else {
+        vec![c]
+    }
+}
